@@ -281,7 +281,9 @@ def check_files(acc, b, g, assign):
                         merged = [y for y in view if y != x and y in ref.anc(x)
                                   and (lpx is None or y not in ref.anc(lpx))]
                         definite = [y for y in merged if len(dag[y]) <= 1 and touched(y) and assign[y] is not None]
-                        if definite:
+                        if definite and e in g.lh:
+                            # (for an end revision that was itself merged, what is nested under x in the
+                            # listing is not ancestry(x) - ancestry(left parent), see the graph part)
                             kinds.add("per-file-graph-omits-mainline-merge-of-a-revision-that-changed-the-file")
                         elif len(dag[x]) <= 1 and touched(x) and assign[x] is not None:
                             kinds.add("per-file-graph-omits-mainline-revision-that-changed-the-file")
